@@ -334,8 +334,12 @@ func drive(args []string) int {
 	return exit
 }
 
-// minimise reduces the tape while the same signature is observed.
+// minimise reduces the tape while the same signature is observed. A check may bring
+// its own minimiser (schedules are reduced by delta-debugging the switch list).
 func minimise(c Check, v Viol) Viol {
+	if m, ok := c.(interface{ Minimise(v Viol) Viol }); ok {
+		return m.Minimise(v)
+	}
 	best := v
 	keep := func(rec []uint32) bool {
 		st := c.NewStats()
